@@ -28,7 +28,9 @@ type TCase struct {
 	Twin bool `json:"twin,omitempty"`
 	// GC: ordinals of calls of less (1-based) at which less runs a garbage collection and then allocates objects of
 	// the size of the elements' heap data.
-	GC []int `json:"gc,omitempty"`
+	// GCFn selects the helper (0..3 = SortFunc, SortDescFunc, SortStableFunc, SortStableDescFunc) whose less does that.
+	GC   []int `json:"gc,omitempty"`
+	GCFn int   `json:"gc_fn,omitempty"`
 	// Nested: ordinal of the call of less at which less itself sorts another, independent slice with the same helper.
 	Nested int `json:"nested,omitempty"`
 	// Abort: 1 = an earlier call of the same helper on another slice is aborted by a panic of less (recovered),
@@ -45,6 +47,7 @@ type typeRunner struct {
 	size   uintptr
 	nkeys  int
 	ord    bool
+	refs   bool // elements hold references to heap data
 	types  func(TCase) pbt.Outcome
 	big    func(BCase) pbt.Outcome
 	repeat func(RCase) pbt.Outcome
@@ -76,7 +79,7 @@ func addKit[E any](k *kit[E]) {
 			panic(fmt.Sprintf("kit %s: mk not monotone at %d", k.name, key))
 		}
 	}
-	runners[k.name] = &typeRunner{name: k.name, size: k.size, nkeys: k.nkeys, ord: k.ord != nil,
+	runners[k.name] = &typeRunner{name: k.name, size: k.size, nkeys: k.nkeys, ord: k.ord != nil, refs: k.junk != nil,
 		types:  func(c TCase) pbt.Outcome { return runElems(k, c) },
 		big:    func(c BCase) pbt.Outcome { return runBig(k, c) },
 		repeat: func(c RCase) pbt.Outcome { return runRepeat(k, c) },
@@ -268,8 +271,9 @@ func runElems[E any](k *kit[E], c TCase) pbt.Outcome {
 	}
 	var sink []any
 
-	for _, f := range funcsOf(k) {
+	for fi, f := range funcsOf(k) {
 		f := f
+		gcHere := len(c.GC) > 0 && f.cb && fi == c.GCFn%4
 		// (f) an earlier, independent call aborted by the callback
 		if c.Abort != 0 && f.cb {
 			pk := append(append([]int{}, keys...), keys...)
@@ -312,21 +316,25 @@ func runElems[E any](k *kit[E], c TCase) pbt.Outcome {
 		if c.Twin {
 			f.call(L.b, k.less, c.Named)
 			if m := k.verify(L.b, twinKeys, f.dir, f.stable); m != "" {
-				return pbt.Fail("%s: %s\nresult (key#original index): %s", where(f.name), m, k.show(L.b))
+				return pbt.Fail("%s on []%s, keys %s (the second slice of the case, sorted first): %s\nresult (key#original index): %s", f.name, k.name, showKeys(twinKeys), m, k.show(L.b))
 			}
 		}
 		cnt := 0
 		nestedMsg := ""
 		less := k.less
-		if f.cb && (len(c.GC) > 0 || c.Nested > 0) {
+		if f.cb && (gcHere || c.Nested > 0) {
 			less = func(a, b E) bool {
 				cnt++
 				for _, g := range c.GC {
-					if g == cnt {
+					if gcHere && g == cnt {
 						fired["gc-inside-less"] = true
 						runtime.GC()
 						if k.junk != nil {
-							sink = append(sink, k.junk(512+4*n))
+							m := 16384 + 8*n
+							if k.junkMax > 0 && m > k.junkMax {
+								m = k.junkMax
+							}
+							sink = append(sink, k.junk(m))
 						}
 					}
 				}
@@ -356,7 +364,7 @@ func runElems[E any](k *kit[E], c TCase) pbt.Outcome {
 		}
 		if m := k.verify(L.a, keys, f.dir, f.stable); m != "" {
 			extra := ""
-			if len(c.GC) > 0 && f.cb {
+			if gcHere {
 				extra = fmt.Sprintf(" (less ran a garbage collection at its calls %v; the elements are referenced by the slice only)", c.GC)
 			}
 			return pbt.Fail("%s: %s%s\nresult (key#original index): %s", where(f.name), m, extra, k.show(L.a))
@@ -523,6 +531,28 @@ func genKeys(t *rapid.T, n, below int) []int {
 	return keys
 }
 
+// genTypeOrder: rapid favours the first entries of a list; the types that are special in some way (references, big
+// elements) come first, the plain numbers - which C15.rand and C15.enum cover as well - last.
+var genTypeOrder []string
+
+func init() {
+	first := []string{"string-24-bytes", "struct-128-bytes", "struct-of-string-and-scalars", "pointer", "array-of-2-strings", "struct-136-bytes",
+		"interface(one-unhashable)", "struct-152-bytes-with-string", "string-200-bytes", "struct-256-bytes", "slice", "string-special-values", "float64-special-values"}
+	seen := map[string]bool{}
+	for _, n := range first {
+		if runners[n] == nil {
+			panic("unknown type " + n)
+		}
+		seen[n] = true
+		genTypeOrder = append(genTypeOrder, n)
+	}
+	for i := len(typeNames) - 1; i >= 0; i-- {
+		if !seen[typeNames[i]] {
+			genTypeOrder = append(genTypeOrder, typeNames[i])
+		}
+	}
+}
+
 var lenClasses = [][2]int{{0, 2}, {3, 12}, {3, 12}, {13, 30}, {13, 30}, {13, 30}, {31, 80}, {31, 80}, {81, 200}}
 var lenPowers = []int{15, 16, 17, 31, 32, 33, 63, 64, 65, 127, 128, 129, 255, 256, 257, 511, 512, 513}
 
@@ -535,13 +565,13 @@ var specTypes = pbt.Register(&pbt.Spec[TCase]{
 		"(as drawn / ascending / descending / few swaps / rotated); every element is BUILT inside the case from (key, index) formulas so that its heap data (string bytes, pointees) is referenced by the " +
 		"slice under test only, and decoded afterwards (payload checksum, string bytes). Circumstances, each drawn independently: named slice type; the slice is a window buffer[off:off+n] of a larger " +
 		"buffer with guard elements in front, behind (inside the capacity or cut off by a 3-index slice); a second live slice in the same buffer that is sorted by the same helper before and checked " +
-		"again after; less runs runtime.GC() plus same-size allocations at up to 3 of its calls; less itself sorts another slice with the same helper at one of its calls; an earlier call of the same " +
+		"again after; for element types holding references (one case in four of those), the less of one of the four Func sorts runs runtime.GC() plus same-size allocations at up to 3 of its calls; less itself sorts another slice with the same helper at one of its calls; an earlier call of the same " +
 		"helper on another slice aborted by a panic (recovered) or runtime.Goexit of less. Checked after SortFunc, SortDescFunc, SortStableFunc, SortStableDescFunc (and Sort, SortDesc for ordered types): " +
 		"permutation of the input (every original index once with intact contents; same multiset for numbers/strings), ordered under less in the promised direction, stable variants keep indistinguishable " +
 		"elements in original order, guard elements outside the slice untouched; ShuffleRand: permutation, same result for two generators of the same seed; Shuffle: permutation; BinarySearchFunc (and " +
 		"BinarySearch) on the ascending slice for up to 14 targets (present, absent inside, below, above): lower bound by linear scan; non-trivial = at least 3 elements, not presorted",
 	Gen: func(t *rapid.T) TCase {
-		c := TCase{Type: rapid.SampledFrom(typeNames).Draw(t, "type")}
+		c := TCase{Type: genTypeOrder[rapid.IntRange(0, len(genTypeOrder)-1).Draw(t, "type")]}
 		var n int
 		if rapid.IntRange(0, 9).Draw(t, "pow") == 0 {
 			n = rapid.SampledFrom(lenPowers).Draw(t, "npow")
@@ -558,7 +588,8 @@ var specTypes = pbt.Register(&pbt.Spec[TCase]{
 			c.CapExact = rapid.Bool().Draw(t, "capExact")
 		}
 		c.Twin = rapid.IntRange(0, 3).Draw(t, "twin") == 0
-		if rapid.IntRange(0, 5).Draw(t, "gc") == 0 {
+		if runners[c.Type].refs && rapid.IntRange(0, 3).Draw(t, "gc") == 0 {
+			c.GCFn = rapid.IntRange(0, 3).Draw(t, "gcFn")
 			for g := rapid.IntRange(1, 3).Draw(t, "gcs"); g > 0; g-- {
 				c.GC = append(c.GC, rapid.IntRange(1, 5*n+5).Draw(t, "gcAt"))
 			}
@@ -573,7 +604,7 @@ var specTypes = pbt.Register(&pbt.Spec[TCase]{
 		c.Seed = rapid.Int64().Draw(t, "seed")
 		return c
 	},
-	Run: RunTypes, Quick: 4000, Thorough: 40000,
+	Run: RunTypes, Quick: 2500, Thorough: 20000,
 	Replicas: 4, ReplicaEvery: 8, Retries: 5,
 })
 
